@@ -175,6 +175,8 @@ structure Tables where
   innerExitOnError : Bool
   /-- `exit_on_error` of the parser made by `_ActionHelpClassPath.print_help` -/
   helpExitOnError : Bool
+  /-- the attributes `_ActionSubCommands.add_subcommand` copies from the parent parser to the sub-command parser -/
+  subInherited : List String
 
 def sub (T : Tables) (c d : Exc) : Bool := (T.ancestors c).contains d
 
@@ -217,19 +219,19 @@ def Sig.tag : Sig → Tag
   | .exit _ t => t
   | .cont => .clean
 
-/-- `self.error(..)` on a parser whose `exit_on_error` is `eff`, during a parse of
-a parser whose `exit_on_error` is `top` -/
-def errorSig (T : Tables) (top eff : Bool) : Sig :=
+/-- `self.error(..)` on a parser whose `exit_on_error` is `eff` (the tags of the catalogued origins are
+put on when the signal LEAVES a parser the library made itself, see `retag`) -/
+def errorSig (T : Tables) (_top eff : Bool) : Sig :=
   if eff then
     match T.error.exitStatus with
-    | some n => .exit n (if top then .clean else .forcedExit)
+    | some n => .exit n .clean
     | none => .exc .UnboundLocalError .clean      -- error() returns: the method has no result to return
   else
     match T.error.raisesWhenNoExit with
-    | some c => .exc c (if top then .innerErr else .clean)
+    | some c => .exc c .clean
     | none =>
       match T.error.exitStatus with
-      | some n => .exit n .forcedExit
+      | some n => .exit n .clean
       | none => .exc .UnboundLocalError .clean
 
 def applyAct (T : Tables) (top eff : Bool) (a : Act) (s : Sig) : Sig :=
@@ -270,6 +272,7 @@ inductive Region
   | body (m : Method)        -- the `try` body of the public method (parse_path: its whole body)
   | innerBody (m : Method)   -- the same code running on a parser made by get_class_parser
   | helpBody                 -- parse_args of the parser made by _ActionHelpClassPath.print_help
+  | subBody (m : Method)     -- the same code running on a sub-command parser (made by the USER, settings copied by add_subcommand)
   | argsPre                  -- parse_args before its `try`: "All arguments are expected to be strings"
   | pathCtor                 -- parse_path: `Path(cfg_path, ..)`
   | pathContent              -- parse_path: `fpath.get_content()`
@@ -334,12 +337,14 @@ def Region.all : List Region :=
    .checkType, .checkTypeLoad, .valueOrConfig, .vocPath, .vocContent, .adapt, .anyLoad, .anyClasses, .leafLoad,
    .annotated, .registered, .enumLookup, .typeImport, .unionTry, .subclass, .callable, .dataclass, .classType,
    .dictKwargsLoad, .merge, .discard, .knownArgs, .typehintAction, .applyConfig, .acPath, .acStr, .acElse,
-   .configLoad, .subcmdAction, .printConfigAction, .helpAction, .helpClassPath, .helpImport, .positional, .leftover, .loadDoc, .floatConv]
+   .configLoad, .subcmdAction, .printConfigAction, .helpAction, .helpClassPath, .helpImport, .positional, .leftover, .loadDoc, .floatConv,
+   .subBody .parseArgs, .subBody .parseObject, .subBody .parseString, .subBody .parseEnv, .subBody .parsePath]
 
 theorem Region.mem_all (r : Region) : r ∈ Region.all := by
   cases r with
   | body m => cases m <;> simp [Region.all]
   | innerBody m => cases m <;> simp [Region.all]
+  | subBody m => cases m <;> simp [Region.all]
   | _ => simp [Region.all]
 
 /-- the code of a method body (the same for the user's parser, a sub-command
@@ -352,6 +357,7 @@ def bodyWrappers : Method → List Wrapper
 def wrappers : Region → List Wrapper
   | .body m => bodyWrappers m
   | .innerBody m => bodyWrappers m
+  | .subBody m => bodyWrappers m
   | .helpBody => bodyWrappers .parseArgs
   | .pathCtor => [.pathOwn]
   | .defPaths => [.defaultPaths]
@@ -398,18 +404,19 @@ def bodyChildren : Method → List Region
 def children : Region → List Region
   | .body m => bodyChildren m
   | .innerBody m => bodyChildren m
+  | .subBody m => bodyChildren m
   | .helpBody => bodyChildren .parseArgs
   | .defaultsEnv => [.getDefaults, .envLoad, .merge]
   | .getDefaults => [.defPaths, .defContent, .lcpm, .merge, .defCommon, .subDefaults]
   | .defCommon => [.subcommands, .links]   -- _parse_common(skip_validation=True, defaults=False, env=False, fail_no_subcommand=False)
-  | .envLoad => [.applyConfig, .checkValueKey, .body .parseEnv, .envList, .applyActions]
+  | .envLoad => [.applyConfig, .checkValueKey, .subBody .parseEnv, .envList, .applyActions]
   | .envList => [.loadValue]
   | .lcpm => [.lcpmLoad, .applyActions]
   | .lcpmLoad => [.loadDoc]
   | .loadDoc => [.yamlConstruct]
   | .loadValue => [.yamlConstruct]
   | .common => [.subcommands, .subDefaults, .printConfig, .links, .validate]
-  | .subcommands => [.body .parseEnv, .getDefaults, .merge]
+  | .subcommands => [.subBody .parseEnv, .getDefaults, .merge]
   | .subDefaults => [.applyActions]
   | .links => [.checkValueKey]
   | .validate => [.checkValueKey, .required]
@@ -439,7 +446,7 @@ def children : Region → List Region
   | .acStr => [.loadValue, .body .parseString]
   | .acElse => [.body .parsePath]
   | .configLoad => [.valueOrConfig, .applyActions]
-  | .subcmdAction => [.body .parseArgs]
+  | .subcmdAction => [.subBody .parseArgs]
   | .helpClassPath => [.helpImport, .helpBody]
   | .positional => [.checkValueKey]
   | _ => []
@@ -531,9 +538,14 @@ def loaderRaises : Mode → List Exc
   | .jsonnet => [.YAMLError, .ValueError]
 
 /-- `exit_on_error` of the parser a region runs on, given that of the calling region -/
+def subInheritsExit (T : Tables) : Bool := T.subInherited.contains "exit_on_error"
+
 def effOf (T : Tables) (eff : Bool) : Region → Bool
   | .innerBody _ => T.innerExitOnError
   | .helpBody => T.helpExitOnError
+  -- a sub-command parser is built by the user with any exit_on_error; add_subcommand overwrites it with the
+  -- parent's.  Were it not copied, the two could differ: the model then takes the value that differs.
+  | .subBody _ => if subInheritsExit T then eff else !eff
   | _ => eff
 
 /-- tag of what a region raises itself (no region is a tagged origin any more: the `Type[..]` import got its handler) -/
@@ -559,13 +571,31 @@ def born (T : Tables) (mode : Mode) (top eff : Bool) (r : Region) : List Sig :=
 def stepRegion (T : Tables) (mode : Mode) (top eff : Bool) (r : Region) (s : Sig) : Sig :=
   (wrappers r).foldl (stepWrapper T mode top eff) s
 
+/-- the tag of a catalogued origin is put on a signal when it leaves a parser the LIBRARY made with an
+`exit_on_error` of its own choice (get_class_parser: False; class help: default True) in the form that
+the user's parser must not produce: an ArgumentError while the user's parser exits, an exit with a
+non-zero status while it raises.  (A mismatch of a sub-command parser gets no tag: it must not exist.) -/
+def retag (T : Tables) (top : Bool) (c : Region) (s : Sig) : Sig :=
+  let lib : Option Bool := match c with
+    | .innerBody _ => some T.innerExitOnError
+    | .helpBody => some T.helpExitOnError
+    | _ => none
+  match lib, s with
+  | some false, .exc e .clean => if top && sub T e .ArgumentError then .exc e .innerErr else s
+  | some true, .exit n .clean => if !top && n != 0 then .exit n .forcedExit else s
+  | _, _ => s
+
+/-- out of callee `c` into a caller whose parser has `exit_on_error = eff` -/
+def stepChild (T : Tables) (mode : Mode) (top eff : Bool) (c : Region) (s : Sig) : Sig :=
+  retag T top c (stepRegion T mode top (effOf T eff c) c s)
+
 /-- `emerge eff path s`: the signal in flight inside a region whose parser has
 `exit_on_error = eff`, when `s` is raised at the end of the call path `path`
 (outermost callee first) below it -/
 def emerge (T : Tables) (mode : Mode) (top : Bool) : Bool → List Region → Sig → Sig
   | _, [], s => s
   | eff, c :: rest, s =>
-    stepRegion T mode top (effOf T eff c) c (emerge T mode top (effOf T eff c) rest s)
+    stepChild T mode top eff c (emerge T mode top (effOf T eff c) rest s)
 
 /-- is `path` a call path below region `r` -/
 def chain : Region → List Region → Bool
@@ -612,6 +642,7 @@ def Region.code : Region → Nat
   | .knownArgs => 57 | .typehintAction => 58 | .applyConfig => 59 | .acPath => 60 | .acStr => 61 | .acElse => 62
   | .configLoad => 63 | .subcmdAction => 64 | .printConfigAction => 65 | .helpAction => 66 | .helpClassPath => 67
   | .helpImport => 68 | .positional => 69 | .leftover => 70 | .loadDoc => 71 | .floatConv => 72
+  | .subBody m => 73 + m.code
 
 def St.idx (st : St) : Nat := 2 * st.1.code + (if st.2 then 1 else 0)
 
@@ -642,8 +673,7 @@ def addAll (l : List Nat) (new : List Nat) : List Nat :=
 def flightAt (T : Tables) (mode : Mode) (top : Bool) (seed : List Sig) (F : Flight) (st : St) : List Nat :=
   (children st.1).foldl
     (fun acc c =>
-      let e := effOf T st.2 c
-      addAll acc ((F.get (c, e)).map (fun k => (stepRegion T mode top e c (Sig.ofCode k)).code)))
+      addAll acc ((F.get (c, effOf T st.2 c)).map (fun k => (stepChild T mode top st.2 c (Sig.ofCode k)).code)))
     (addAll (F.get st) (seed.map Sig.code))
 
 /-- one pass over all states, callees before callers (`Region.all` lists callers first), updating in place -/
@@ -722,7 +752,7 @@ def pipelineArgs : List (List Region) :=
    [.knownArgs, .typehintAction, .checkType],
    [.knownArgs, .typehintAction, .checkType, .adapt],
    [.knownArgs, .applyConfig, .acStr, .body .parseString, .lcpm, .lcpmLoad, .loadDoc],
-   [.knownArgs, .subcmdAction, .body .parseArgs, .leftover],
+   [.knownArgs, .subcmdAction, .subBody .parseArgs, .leftover],
    [.positional, .checkValueKey, .checkType],
    [.leftover],
    [.common, .subcommands],
